@@ -21,6 +21,7 @@ RULE = ("(a) guided schedules with frequent drops, client 0 compared step by ste
 def cases(rng, tier):
     n = 30 if tier == "quick" else 800
     out = [dict(seed=4000 + i, n=120, profile="drops") for i in range(4)]
+    out += mc.connection_corpus()
     for _ in range(n):
         out.append(dict(seed=rng.randrange(10**9), n=rng.choice([60, 120, 200]), profile=rng.choice(["drops", "drops", "late-peer", "allocate", "input"])))
     m = 50 if tier == "quick" else 1500
